@@ -4,6 +4,8 @@ import DimodProofs.SymStore
 import DimodProofs.SymStoreMore
 import DimodProofs.SymCmp
 import DimodProofs.SymGen
+import DimodProofs.SymView
+import Generated.SymFolds
 
 /-! # C06 — symbolic arithmetic on models is pointwise arithmetic on energies
 
@@ -548,5 +550,149 @@ example :
        (Generated.bqm_add_bqm_differ 0 1 0 2) with
      | .ok h' => (h'[Generated.bqm_add_bqm_differResult 0 1 2]?).map (·.eval fun _ => 1) | .error _ => none) = some (6 : Rat) := by
   decide +kernel
+
+/-! ## round 8: expression VIEWS of a CQM (`cqm.objective`, `cqm.constraints[l].lhs`) as operands of `+ -`, of comparisons,
+       of `set_objective` / `add_constraint`; `sum(items, start)` and `quicksum` as folds of the modelled `+`
+       (`DimodModel/SymView.lean`, `DimodProofs/SymView.lean`).  All statements hold at EVERY sample (no domain hypothesis:
+       `+`/`-` never use `x*x = x`). -/
+
+/-- **`+` over every operand class incl. views on either side** (`_ExpressionMixin.__add__`: `qm = QM(); qm.update(view);
+    qm += other`; `__radd__`: `other + qm`; number / BQM of either vartype, with or without variables / QM / view as the
+    other operand): whenever the operator returns, the energy of the result is the sum of the operands' energies, and when
+    one operand is a view the result is a new `QuadraticModel` object (never a view, never a BQM). -/
+theorem view_add_eval (a b c : Val) (x : Label → Rat) (h : valAdd a b = .ok c) :
+    c.eval x = a.eval x + b.eval x ∧ ((a.isView = true ∨ b.isView = true) → c.isQMObj = true) :=
+  ⟨valAdd_eval a b c x h, fun hv => valAdd_view_class a b c hv h⟩
+
+/-- **`-` over every operand class incl. views on either side** (`__sub__`: `qm -= other`; `__rsub__`: `other - qm`) -/
+theorem view_sub_eval (a b c : Val) (x : Label → Rat) (h : valSub a b = .ok c) :
+    c.eval x = a.eval x - b.eval x ∧ ((a.isView = true ∨ b.isView = true) → c.isQMObj = true) :=
+  ⟨valSub_eval a b c x h, fun hv => valSub_view_class a b c hv h⟩
+
+/-- **a variable-free BQM that carries an offset, combined with a view** (a BQM with `num_variables == 0` is falsy in
+    Python whatever its offset — the class of a shortcut `if not other: return qm`): its constant is never dropped, on
+    either side of `+` and `-`. -/
+theorem constant_bqm_with_view (vt : VT) (c : Rat) (o : Bool) (a : Model) (r : Val) (x : Label → Rat) :
+    (valAdd (.mdl (constBQM vt c)) (.view o a) = .ok r → r.eval x = c + a.eval x) ∧
+    (valAdd (.view o a) (.mdl (constBQM vt c)) = .ok r → r.eval x = a.eval x + c) ∧
+    (valSub (.mdl (constBQM vt c)) (.view o a) = .ok r → r.eval x = c - a.eval x) ∧
+    (valSub (.view o a) (.mdl (constBQM vt c)) = .ok r → r.eval x = a.eval x - c) := by
+  refine ⟨fun h => ?_, fun h => ?_, fun h => ?_, fun h => ?_⟩
+  · simpa [Val.eval, eval_constBQM] using valAdd_eval _ _ _ x h
+  · simpa [Val.eval, eval_constBQM] using valAdd_eval _ _ _ x h
+  · simpa [Val.eval, eval_constBQM] using valSub_eval _ _ _ x h
+  · simpa [Val.eval, eval_constBQM] using valSub_eval _ _ _ x h
+
+/-- non-vacuity: `constant-4 binary BQM + objective view (2x + 3/2)` does return, and has energy 4 + 2 + 3/2 at x = 1 -/
+example :
+    (match valAdd (.mdl (constBQM .binary 4)) (.view true ⟨true, .binary, [⟨.str "x", bqmInfo .binary, 2⟩], [], 3/2⟩) with
+     | .ok r => some (r.eval fun _ => 1) | .error _ => none) = some (15/2 : Rat) := by
+  decide +kernel
+
+/-- **views have no `*`, unary `-`, `/`, `**`**: TypeError whatever the other operand -/
+theorem view_products_refused (o : Bool) (m : Model) (v : Val) (q : Rat) (n : Nat) :
+    valMul (.view o m) v = .error .type ∧ valMul v (.view o m) = .error .type ∧ valNeg (.view o m) = .error .type ∧
+    valDiv (.view o m) q = .error .type ∧ valPow (.view o m) n = .error .type := by
+  refine ⟨by cases v <;> rfl, by cases v <;> rfl, rfl, ?_, rfl⟩
+  unfold valDiv; split <;> rfl
+
+/-- **`sum(items, start)`** (`acc = start; acc = acc + item` for each item — start a number (default 0), a BQM, a QM or a
+    view; items of any classes): whenever it returns, the energy of the result is the start's energy plus the sum of the
+    items' energies. -/
+theorem sum_with_start_eval (start : Val) (items : List Val) (r : Val) (x : Label → Rat) (h : sumVals start items = .ok r) :
+    r.eval x = start.eval x + sumEvals x items := sumVals_eval start items r x h
+
+/-- `sum(items)` with the implicit start 0 -/
+theorem sum_default_start_eval (items : List Val) (r : Val) (x : Label → Rat) (h : sumVals (.num 0) items = .ok r) :
+    r.eval x = sumEvals x items := by
+  have := sumVals_eval (.num 0) items r x h
+  simpa [Val.eval] using this
+
+/-- **`quicksum(items)` for any number of items** (deep copy of the first, `+=` each further one; `QuadraticModel()` when
+    empty; a ConstraintView first item cannot be deep-copied → TypeError): the energy of the result is the sum of the items'
+    energies. -/
+theorem quicksum_eval (items : List Val) (r : Val) (x : Label → Rat) (h : qsumVals items = .ok r) :
+    r.eval x = sumEvals x items := qsumVals_eval items r x h
+
+/-- the fold of `sum` IS the nested `+` tree `((start + i0) + i1) + …` built by `build` (this is what the driver evaluates for
+    the harness' `sum(...)` cases), whenever start and items evaluate -/
+theorem sum_is_nested_add (start : SymExpr) (items : List SymExpr) (v : Val) (ws : List Val) (hs : build start = .ok v)
+    (hi : List.Forall₂ (fun i w => build i = .ok w) items ws) : build (sumExpr start items) = sumVals v ws :=
+  build_sumExpr start items v ws hs hi
+
+/-- non-vacuity: `sum([view, 3, Spin s], start = constant-1 spin BQM)` returns, energy 1 + (2x + 3/2) + 3 + s at x = s = 1 -/
+example :
+    (match sumVals (.mdl (constBQM .spin 1))
+        [.view false ⟨true, .binary, [⟨.str "x", bqmInfo .binary, 2⟩], [], 3/2⟩, .num 3,
+         .mdl ⟨false, .spin, [⟨.str "s", bqmInfo .spin, 1⟩], [], 0⟩] with
+     | .ok r => some (r.eval fun _ => 1) | .error _ => none) = some (17/2 : Rat) := by
+  decide +kernel
+
+/-- **a comparison / constraint built from a view expression** (`view + b <= c`, `a - view >= c`, `view - view == c`, …, then
+    `cqm.add_constraint(…)`; a bare `view <= c` is a TypeError as coded: `comparison_view_refused`): the Comparison keeps the
+    written sense, its activity `lhs − rhs` is `a(x) ± b(x) − c`, it holds iff the written comparison holds on numbers, and
+    the constraint the CQM stores has that activity, sense and rhs. -/
+theorem view_comparison_eval (s : Sense) (a b v : Val) (c : Rat) (k : Cmp) (x : Label → Rat)
+    (hk : cmpVals s v (.num c) = .ok (some k)) :
+    (valAdd a b = .ok v →
+      k.sense = s ∧ k.lhs.eval x - k.rhs = a.eval x + b.eval x - c ∧ (k.holds x ↔ s.rel (a.eval x + b.eval x) c) ∧
+      (conOfCmp k).activity x = a.eval x + b.eval x - c ∧ (conOfCmp k).sense = s ∧ (conOfCmp k).rhs = c) ∧
+    (valSub a b = .ok v →
+      k.sense = s ∧ k.lhs.eval x - k.rhs = a.eval x - b.eval x - c ∧ (k.holds x ↔ s.rel (a.eval x - b.eval x) c) ∧
+      (conOfCmp k).activity x = a.eval x - b.eval x - c ∧ (conOfCmp k).sense = s ∧ (conOfCmp k).rhs = c) := by
+  obtain ⟨h1, h2, h3⟩ := cmp_of_value s v c k x hk
+  have hh := (cmpVals_spec s v (.num c) k x hk).2
+  constructor
+  · intro hv
+    have e := valAdd_eval a b v x hv
+    refine ⟨h1, by rw [h2, h3, e], ?_, by simp only [Con.activity, conOfCmp, eval_toQM]; rw [h2, h3, e], h1, h2⟩
+    rw [hh, e]; rfl
+  · intro hv
+    have e := valSub_eval a b v x hv
+    refine ⟨h1, by rw [h2, h3, e], ?_, by simp only [Con.activity, conOfCmp, eval_toQM]; rw [h2, h3, e], h1, h2⟩
+    rw [hh, e]; rfl
+
+/-- non-vacuity: `(objective view 2x + 3/2) - 1 <= 2` is a `Le` whose stored constraint has activity 2 + 3/2 − 1 − 2 at x = 1 -/
+example :
+    (match valSub (.view true ⟨true, .binary, [⟨.str "x", bqmInfo .binary, 2⟩], [], 3/2⟩) (.num 1) with
+     | .ok v => (match cmpVals .le v (.num 2) with
+                 | .ok (some k) => some ((conOfCmp k).activity fun _ => 1) | _ => none)
+     | .error _ => none) = some (1/2 : Rat) := by
+  decide +kernel
+
+/-- **`cqm.set_objective(view op x)` / `add_constraint_from_model(view op x, …)` and reading the new view**: the value of
+    `view ± x` / `x ± view` is a model object the CQM accepts; the view read back has, at every sample, the energy
+    `a(x) ± b(x)` of the written expression. -/
+theorem set_objective_of_view_expr (o : Bool) (a b r : Val) (x : Label → Rat) (hv : a.isView = true ∨ b.isView = true) :
+    (valAdd a b = .ok r → ∃ m, setView o r = .ok (.view o m) ∧ m.isQM = true ∧ m.eval x = a.eval x + b.eval x) ∧
+    (valSub a b = .ok r → ∃ m, setView o r = .ok (.view o m) ∧ m.isQM = true ∧ m.eval x = a.eval x - b.eval x) := by
+  constructor
+  · intro h
+    have c := valAdd_view_class a b r hv h
+    have e := valAdd_eval a b r x h
+    cases r with
+    | mdl m => exact ⟨m.toQM, rfl, rfl, by simpa [Val.eval, eval_toQM] using e⟩
+    | num p => simp [Val.isQMObj] at c
+    | view o' m => simp [Val.isQMObj] at c
+  · intro h
+    have c := valSub_view_class a b r hv h
+    have e := valSub_eval a b r x h
+    cases r with
+    | mdl m => exact ⟨m.toQM, rfl, rfl, by simpa [Val.eval, eval_toQM] using e⟩
+    | num p => simp [Val.isQMObj] at c
+    | view o' m => simp [Val.isQMObj] at c
+
+/-- **`quicksum` as read from the source** (`harness/translators/sym_folds.py` matches the body of `dimod.quicksum` statement by
+    statement and emits what an empty iterable returns, the in-place operator applied per further item, and that the first item
+    is deep-copied): the modelled `qsumVals` is exactly that fold — so `quicksum_eval` is a statement about the code's loop. -/
+theorem generated_quicksum (vs : List Val) :
+    Generated.quicksumDeepcopiesFirst = true ∧
+    qsumVals vs = (match vs with
+      | [] => .ok (.mdl Generated.quicksumEmpty)
+      | .view false _ :: _ => .error .type
+      | v :: rest => rest.foldlM Generated.quicksumStep v) := by
+  refine ⟨rfl, ?_⟩
+  unfold qsumVals Generated.quicksumEmpty Generated.quicksumStep
+  rfl
 
 end C06
